@@ -1,4 +1,560 @@
-//! C16 engine (residue after drop) - see below.
-use serde_json::Value;
-pub fn main(_args: &[String]) { eprintln!("HARNESS-ERROR: c16 engine not built yet"); std::process::exit(2) }
-pub fn replay(_v: &Value) { eprintln!("HARNESS-ERROR: c16 engine not built yet"); std::process::exit(2) }
+//! C16 engine: what is left in an instance's own storage after it is dropped.
+//!
+//! The simulator owns the storage (slots), builds an instance there by a seeded
+//! route (new / new_from_slice / clone / From<Enc> / From<&Enc> / clone of a
+//! converted instance), optionally uses and relocates it, fires `drop_now`
+//! (`ptr::drop_in_place`) and reads the slot back.
+//!
+//! Oracle: every *live key-dependent* position must read 0. A position is
+//! key-dependent when it is stable over rebuilds from the same key in perturbed
+//! contexts and differs between keys; it is live when flipping its low bit in a
+//! bitwise copy changes some encrypt/decrypt result (DESIGN.md section 4, C16).
+
+use crate::mem::{SlotRef, Slots};
+use crate::prng::{Digest, Prng, hex, run_seed, unhex};
+use crate::registry::{Dir, Registry, Role, Shape, TypeInfo};
+use crate::world::{Anchors, Op, RunCfg, World, guard, install_quiet_panic_hook, perblock_on};
+use serde_json::{Value, json};
+use std::collections::{BTreeMap, HashMap, HashSet};
+use std::time::Instant;
+
+fn arg<'a>(args: &'a [String], name: &str) -> Option<&'a str> {
+    args.iter().position(|a| a == name).and_then(|i| args.get(i + 1)).map(|s| s.as_str())
+}
+
+fn die(msg: &str) -> ! {
+    eprintln!("HARNESS-ERROR: {}", msg);
+    std::process::exit(2)
+}
+
+#[derive(Clone, Debug, PartialEq, Eq, Hash, PartialOrd, Ord)]
+pub enum Route {
+    New,
+    NewFromSlice,
+    Clone,
+    ConvRef,
+    ConvVal,
+    CloneOfConv,
+    /// the Enc source of a by-reference conversion, dropped after the conversion
+    ConvSource,
+}
+
+impl Route {
+    pub fn name(&self) -> &'static str {
+        match self {
+            Route::New => "new",
+            Route::NewFromSlice => "new_from_slice",
+            Route::Clone => "clone",
+            Route::ConvRef => "from_ref_enc",
+            Route::ConvVal => "from_enc",
+            Route::CloneOfConv => "clone_of_converted",
+            Route::ConvSource => "source_of_from_ref",
+        }
+    }
+    pub fn parse(s: &str) -> Option<Route> {
+        [Route::New, Route::NewFromSlice, Route::Clone, Route::ConvRef, Route::ConvVal, Route::CloneOfConv, Route::ConvSource]
+            .into_iter()
+            .find(|r| r.name() == s)
+    }
+}
+
+#[derive(Clone, Debug)]
+pub struct Case {
+    pub ty: usize,
+    pub mask: bool,
+    pub route: Route,
+    pub key: Vec<u8>,
+    pub used: bool,
+    pub relocate: bool,
+    pub drop_source_first: bool,
+    pub off: u8,
+}
+
+#[inline(never)]
+fn perturbed<R>(depth: u32, f: &mut dyn FnMut() -> R) -> R {
+    // different stack depth and stack contents per context
+    let mut pad = [0u8; 96];
+    for (i, b) in pad.iter_mut().enumerate() {
+        *b = (i as u32 * 31 + depth * 7) as u8;
+    }
+    let r = if depth == 0 { f() } else { perturbed(depth - 1, f) };
+    std::hint::black_box(&pad);
+    r
+}
+
+fn read_slot(p: *const u8, n: usize) -> Vec<u8> {
+    (0..n).map(|i| unsafe { core::ptr::read_volatile(p.add(i)) }).collect()
+}
+
+pub struct Calib {
+    /// key-functional positions
+    pub k: Vec<usize>,
+    pub live: Vec<usize>,
+}
+
+struct Engine<'a> {
+    reg: &'a Registry,
+    anchors: &'a Anchors,
+    calib: HashMap<(usize, bool, usize), Calib>,
+    probes: Vec<u8>,
+}
+
+impl<'a> Engine<'a> {
+    fn build_plain(&self, slots: &mut Slots, t: &TypeInfo, key: &[u8], ctx: u32, prefill: u8) -> Option<SlotRef> {
+        let _junk: Vec<u8> = vec![ctx as u8; 64 + 40 * ctx as usize];
+        let s = slots.alloc(((ctx as usize) % 3) * 64);
+        let p = slots.ptr(s);
+        unsafe { core::ptr::write_bytes(p, prefill, t.size) };
+        let ctor = t.new_from_slice;
+        let mut f = || guard(|| unsafe { ctor(p, key) });
+        match perturbed(ctx * 3, &mut f) {
+            Ok(true) => Some(s),
+            _ => {
+                slots.free(s);
+                None
+            }
+        }
+    }
+
+    fn observable(&self, t: &TypeInfo, p: *const u8) -> Option<Vec<u8>> {
+        let mut out = Vec::new();
+        for d in [Dir::Enc, Dir::Dec] {
+            if t.call(d).is_some() {
+                let n = 4 * t.block;
+                out.extend(perblock_on(t, p, d, &self.probes[..n]).ok()?);
+            }
+        }
+        Some(out)
+    }
+
+    /// does flipping bit 0 of byte `pos` change any observable result? (up to 256 probe blocks, early exit)
+    fn is_live(&self, t: &TypeInfo, good: *const u8, scratch: *mut u8, pos: usize) -> bool {
+        unsafe {
+            core::ptr::copy_nonoverlapping(good, scratch, t.size);
+            *scratch.add(pos) ^= 1;
+        }
+        let mut live = false;
+        'outer: for d in [Dir::Enc, Dir::Dec] {
+            if t.call(d).is_none() {
+                continue;
+            }
+            let mut done = 0usize;
+            for chunk in [4usize, 12, 48, 192] {
+                let a = done * t.block;
+                let b = (done + chunk) * t.block;
+                let data = &self.probes[a..b];
+                let x = perblock_on(t, good, d, data);
+                let y = perblock_on(t, scratch as *const u8, d, data);
+                match (x, y) {
+                    (Ok(x), Ok(y)) if x == y => {}
+                    _ => {
+                        live = true;
+                        break 'outer;
+                    }
+                }
+                done += chunk;
+            }
+        }
+        live
+    }
+
+    fn calibrate(&mut self, ty: usize, mask: bool, klen: usize) -> &Calib {
+        if !self.calib.contains_key(&(ty, mask, klen)) {
+            let t = self.reg.types[ty].clone();
+            cpufeatures::sim::bump_epoch();
+            cpufeatures::sim::set_mask(mask);
+            let mut slots = Slots::new();
+            let mut rng = Prng::new(0xC16 ^ (ty as u64) << 8 ^ klen as u64);
+            let keys: Vec<Vec<u8>> = (0..8).map(|_| rng.bytes(klen)).collect();
+            // (i) functional dependence
+            let mut stable = vec![true; t.size];
+            let mut differs = vec![false; t.size];
+            let mut first: Option<Vec<u8>> = None;
+            let mut ok = true;
+            for (ki, key) in keys.iter().enumerate() {
+                let mut images: Vec<Vec<u8>> = Vec::new();
+                for ctx in 0..3u32 {
+                    match self.build_plain(&mut slots, &t, key, ctx + ki as u32 % 2, [0x00, 0xFF, 0xA5][ctx as usize]) {
+                        Some(s) => {
+                            images.push(read_slot(slots.ptr(s), t.size));
+                            let p = slots.ptr(s);
+                            let _ = guard(|| unsafe { (t.drop)(p) });
+                            slots.free(s);
+                        }
+                        None => ok = false,
+                    }
+                }
+                if images.len() < 3 {
+                    continue;
+                }
+                for i in 0..t.size {
+                    if images[0][i] != images[1][i] || images[0][i] != images[2][i] {
+                        stable[i] = false;
+                    }
+                }
+                match &first {
+                    None => first = Some(images[0].clone()),
+                    Some(f) => {
+                        for i in 0..t.size {
+                            if f[i] != images[0][i] {
+                                differs[i] = true;
+                            }
+                        }
+                    }
+                }
+            }
+            let k: Vec<usize> = if ok { (0..t.size).filter(|&i| stable[i] && differs[i]).collect() } else { Vec::new() };
+            // (ii) liveness, on two keys
+            let mut live_set: HashSet<usize> = HashSet::new();
+            let scratch = slots.alloc(0);
+            for key in keys.iter().take(2) {
+                if let Some(s) = self.build_plain(&mut slots, &t, key, 0, 0) {
+                    let good = slots.ptr(s) as *const u8;
+                    if self.observable(&t, good).is_some() {
+                        for &pos in &k {
+                            if !live_set.contains(&pos) && self.is_live(&t, good, slots.ptr(scratch), pos) {
+                                live_set.insert(pos);
+                            }
+                        }
+                    }
+                    let p = slots.ptr(s);
+                    let _ = guard(|| unsafe { (t.drop)(p) });
+                    slots.free(s);
+                }
+            }
+            let mut live: Vec<usize> = live_set.into_iter().collect();
+            live.sort();
+            self.calib.insert((ty, mask, klen), Calib { k, live });
+        }
+        &self.calib[&(ty, mask, klen)]
+    }
+
+    /// Run one case; returns (residue bytes of the dropped storage, type actually dropped)
+    fn run_case(&mut self, c: &Case) -> Result<(Vec<u8>, usize), String> {
+        let reg = self.reg;
+        let t = &reg.types[c.ty];
+        let f = reg.family(t.family).unwrap();
+        let fam = &reg.families[f];
+        let vidx = fam.variants.iter().position(|v| v.variant == t.variant).ok_or("variant")?;
+        let mut variants = BTreeMap::new();
+        variants.insert(f, vec![vidx]);
+        let cfg = RunCfg { variants, mask: c.mask, tasks: 1 };
+        let mut w = World::new(reg, self.anchors, cfg, 0xC16);
+        let mut ops: Vec<Op> = Vec::new();
+        let target_role = t.role;
+        let (mut target, mut source): (u32, Option<u32>) = (1, None);
+        match c.route {
+            Route::New | Route::NewFromSlice => {
+                ops.push(Op::New { id: 1, task: 0, fam: f, role: target_role, key: c.key.clone(), fixed: c.route == Route::New });
+            }
+            Route::Clone => {
+                ops.push(Op::New { id: 2, task: 0, fam: f, role: target_role, key: c.key.clone(), fixed: false });
+                ops.push(Op::Clone { id: 1, task: 0, src: 2 });
+                source = Some(2);
+            }
+            Route::ConvRef | Route::ConvVal | Route::CloneOfConv => {
+                ops.push(Op::New { id: 2, task: 0, fam: f, role: Role::Enc, key: c.key.clone(), fixed: false });
+                if c.route == Route::CloneOfConv {
+                    ops.push(Op::Conv { id: 3, task: 0, src: 2, to: target_role, by_ref: true });
+                    ops.push(Op::Clone { id: 1, task: 0, src: 3 });
+                } else {
+                    ops.push(Op::Conv { id: 1, task: 0, src: 2, to: target_role, by_ref: c.route == Route::ConvRef });
+                }
+                if c.route != Route::ConvVal {
+                    source = Some(2);
+                }
+            }
+            Route::ConvSource => {
+                ops.push(Op::New { id: 1, task: 0, fam: f, role: Role::Enc, key: c.key.clone(), fixed: false });
+                ops.push(Op::Conv { id: 2, task: 0, src: 1, to: Role::Both, by_ref: true });
+                target = 1;
+            }
+        }
+        for op in &ops {
+            match w.apply(op) {
+                Ok(so) if so.applied => {}
+                Ok(_) => return Err(format!("route step not applicable: {:?}", op.kind())),
+                Err(v) => return Err(format!("violation while building: {}", v.detail)),
+            }
+        }
+        if c.drop_source_first {
+            if let Some(s) = source {
+                let _ = w.apply(&Op::Drop { id: s, task: 0 });
+            }
+        }
+        if c.used {
+            let bs = fam.block;
+            for (dir, shape, n) in [(Dir::Enc, Shape::Blocks, 3u32), (Dir::Dec, Shape::Block, 1), (Dir::Enc, Shape::BlockB2b, 1)] {
+                if !target_role.can(dir) {
+                    continue;
+                }
+                let len = n as usize * bs;
+                let (i, o) = if shape == Shape::BlockB2b { (0u32, 512u32) } else { (64, 64) };
+                let data: Vec<u8> = (0..len).map(|x| x as u8).collect();
+                if let Err(v) = w.apply(&Op::Call { id: target, task: 0, dir, shape, n, in_off: i, out_off: o, data }) {
+                    return Err(format!("violation while using: {} {}", v.prop, v.detail));
+                }
+            }
+        }
+        if c.relocate {
+            let _ = w.apply(&Op::Relocate { id: target, task: 0, off: c.off });
+        }
+        // drop_now: take the instance out of the world and drop it ourselves
+        let inst = w.insts.remove(&target).ok_or("target instance missing")?;
+        let real = inst.reals.first().ok_or("no realisation")?.clone();
+        let tt = &reg.types[real.ty];
+        let p = w.slots.ptr(real.slot);
+        guard(|| unsafe { (tt.drop)(p) })?;
+        let residue = read_slot(p, tt.size);
+        w.slots.free(real.slot);
+        w.finish();
+        Ok((residue, real.ty))
+    }
+}
+
+fn case_json(reg: &Registry, c: &Case) -> Value {
+    json!({"type": reg.types[c.ty].name, "mask_aes": c.mask, "route": c.route.name(), "key": hex(&c.key),
+           "used_before_drop": c.used, "relocated_before_drop": c.relocate, "source_dropped_first": c.drop_source_first, "slot_off": c.off})
+}
+
+fn case_from_json(reg: &Registry, v: &Value) -> Option<Case> {
+    Some(Case {
+        ty: reg.type_by_name(v.get("type")?.as_str()?)?,
+        mask: v.get("mask_aes")?.as_bool()?,
+        route: Route::parse(v.get("route")?.as_str()?)?,
+        key: unhex(v.get("key")?.as_str()?)?,
+        used: v.get("used_before_drop")?.as_bool()?,
+        relocate: v.get("relocated_before_drop")?.as_bool()?,
+        drop_source_first: v.get("source_dropped_first")?.as_bool()?,
+        off: v.get("slot_off")?.as_u64()? as u8,
+    })
+}
+
+struct Outcome {
+    live_nonzero: Vec<usize>,
+    nonlive_nonzero: usize,
+    live: usize,
+    kdep: usize,
+    dropped_ty: usize,
+}
+
+fn judge(e: &mut Engine, c: &Case) -> Result<Outcome, String> {
+    let (residue, dty) = e.run_case(c)?;
+    let cal = e.calibrate(dty, c.mask, c.key.len());
+    let live_nonzero: Vec<usize> = cal.live.iter().copied().filter(|&i| residue[i] != 0).collect();
+    let live: HashSet<usize> = cal.live.iter().copied().collect();
+    let nonlive_nonzero = cal.k.iter().filter(|&&i| !live.contains(&i) && residue[i] != 0).count();
+    Ok(Outcome { live_nonzero, nonlive_nonzero, live: cal.live.len(), kdep: cal.k.len(), dropped_ty: dty })
+}
+
+fn routes_for(reg: &Registry, t: &TypeInfo) -> Vec<Route> {
+    let fam = &reg.families[reg.family(t.family).unwrap()];
+    let mut r = vec![Route::NewFromSlice, Route::New];
+    if t.clone.is_some() {
+        r.push(Route::Clone);
+    }
+    if fam.split && t.role != Role::Enc {
+        r.extend([Route::ConvRef, Route::ConvVal, Route::CloneOfConv]);
+    }
+    if fam.split && t.role == Role::Enc {
+        r.push(Route::ConvSource);
+    }
+    r
+}
+
+pub fn main(args: &[String]) {
+    let t0 = Instant::now();
+    let reg = crate::registry::build();
+    let anchors = Anchors::compute(&reg);
+    install_quiet_panic_hook();
+    let tier = arg(args, "--tier").unwrap_or("quick").to_string();
+    let seed: u64 = arg(args, "--seed").and_then(|s| s.parse().ok()).unwrap_or(20261003);
+    let evidence = arg(args, "--evidence").unwrap_or("/verif/evidence/C16.json").to_string();
+    let replay_dir = arg(args, "--replay-dir").unwrap_or("/verif/replays").to_string();
+    let known = crate::engine::Known::load(arg(args, "--known").unwrap_or("/verif/known_findings.json"));
+    let keys_per_cell: u64 = arg(args, "--keys").and_then(|s| s.parse().ok()).unwrap_or(if tier == "quick" { 6 } else { 200 });
+    println!("sim-native c16 tier={} VERIF_SEED={} keys_per_cell={}", tier, seed, keys_per_cell);
+    let mut probe_rng = Prng::new(0x9E37_C16);
+    let mut e = Engine { reg: &reg, anchors: &anchors, calib: HashMap::new(), probes: probe_rng.bytes(256 * 128) };
+    let mut evaluations = 0u64;
+    let mut cells: HashSet<String> = HashSet::new();
+    let mut distinct: HashSet<u64> = HashSet::new();
+    let mut violations: Vec<Value> = Vec::new();
+    let mut seen_sig: HashSet<String> = HashSet::new();
+    let mut known_hits: Vec<(String, String)> = Vec::new();
+    let mut warn_nonlive = 0u64;
+    let mut warn_types: HashSet<String> = HashSet::new();
+    let mut samples: Vec<Value> = Vec::new();
+    let mut faults: BTreeMap<&str, u64> = BTreeMap::new();
+    let mut per_type: Vec<Value> = Vec::new();
+    let mut herr: Vec<String> = Vec::new();
+    let mut case_no = 0u64;
+    let mut types_checked = 0u64;
+    for t in reg.types.iter().filter(|t| t.zeroize) {
+        let fam = &reg.families[reg.family(t.family).unwrap()];
+        let arms: &[bool] = if t.detect { &[false, true] } else { &[false] };
+        types_checked += 1;
+        let mut tl = json!({"type": t.name, "size": t.size});
+        for &mask in arms {
+            for route in routes_for(&reg, t) {
+                for kk in 0..keys_per_cell {
+                    case_no += 1;
+                    let mut rng = Prng::new(run_seed(seed, case_no));
+                    let klen = if route == Route::New { fam.key_size } else { *rng.pick(&fam.key_lens) };
+                    let c = Case {
+                        ty: t.id,
+                        mask,
+                        route: route.clone(),
+                        key: if kk == 0 { vec![0x42; klen] } else { rng.bytes(klen) },
+                        used: rng.chance(1, 2),
+                        relocate: rng.chance(1, 2),
+                        drop_source_first: rng.chance(1, 2),
+                        off: rng.below(8) as u8,
+                    };
+                    match judge(&mut e, &c) {
+                        Ok(o) => {
+                            evaluations += 1;
+                            cells.insert(format!("{}/{}/{}", t.name, mask, route.name()));
+                            if o.live > 0 {
+                                let mut d = Digest::default();
+                                d.str(&t.name);
+                                d.u64(mask as u64);
+                                d.str(route.name());
+                                d.bytes(&c.key);
+                                d.u64(c.used as u64 * 4 + c.relocate as u64 * 2 + c.drop_source_first as u64);
+                                distinct.insert(d.finish());
+                            }
+                            if mask {
+                                *faults.entry("mask_aes").or_insert(0) += 1;
+                            }
+                            if c.relocate {
+                                *faults.entry("relocate_before_drop").or_insert(0) += 1;
+                            }
+                            if c.used {
+                                *faults.entry("used_before_drop").or_insert(0) += 1;
+                            }
+                            if c.drop_source_first && matches!(route, Route::Clone | Route::ConvRef | Route::CloneOfConv) {
+                                *faults.entry("drop_source_first").or_insert(0) += 1;
+                            }
+                            *faults.entry("drop_now").or_insert(0) += 1;
+                            if kk == 0 && route == Route::NewFromSlice {
+                                tl[if mask { "soft_arm" } else { "default_arm" }] =
+                                    json!({"key_dependent": o.kdep, "live": o.live, "dropped_type": reg.types[o.dropped_ty].name});
+                            }
+                            if o.nonlive_nonzero > 0 {
+                                warn_nonlive += 1;
+                                warn_types.insert(t.name.clone());
+                            }
+                            if samples.len() < 3 && kk == 1 && (case_no % 37 == 5) {
+                                samples.push(json!({"case": case_json(&reg, &c), "key_dependent_positions": o.kdep, "live_positions": o.live,
+                                    "live_nonzero_after_drop": o.live_nonzero.len(), "nonlive_nonzero_after_drop": o.nonlive_nonzero}));
+                            }
+                            if !o.live_nonzero.is_empty() {
+                                let sig = format!("C16/residue/{}/{}/{}", t.family, t.variant, t.type_name);
+                                let full = format!("{}/{}/{}", sig, if mask { "soft_arm" } else { "default_arm" }, route.name());
+                                if let Some((s, w)) = known.entries.iter().find(|(s, _)| full.starts_with(s.as_str())) {
+                                    if !known_hits.iter().any(|(a, _)| a == s) {
+                                        known_hits.push((s.clone(), w.clone()));
+                                    }
+                                    continue;
+                                }
+                                if seen_sig.insert(full.clone()) {
+                                    let vj = json!({"property": "C16", "class": "residue", "signature": full,
+                                        "detail": format!("{} live key-dependent bytes of {} are non-zero after drop (first offsets {:?}) of {} live / {} key-dependent / {} total",
+                                            o.live_nonzero.len(), reg.types[o.dropped_ty].name, &o.live_nonzero[..o.live_nonzero.len().min(8)], o.live, o.kdep, reg.types[o.dropped_ty].size)});
+                                    let rj = json!({"format": "block-ciphers-sim-replay/1", "property": "C16", "engine": "c16", "seed": seed,
+                                        "case": case_json(&reg, &c), "violation": vj});
+                                    let _ = std::fs::create_dir_all(&replay_dir);
+                                    let path = format!("{}/C16-{}-{}.json", replay_dir, seed, case_no);
+                                    let _ = std::fs::write(&path, serde_json::to_string_pretty(&rj).unwrap());
+                                    violations.push(json!({"replay": path, "violation": vj}));
+                                }
+                            }
+                        }
+                        Err(msg) => {
+                            if msg.contains("not applicable") || msg.contains("rejected") {
+                                continue;
+                            }
+                            herr.push(format!("{} {} {}: {}", t.name, mask, route.name(), msg));
+                        }
+                    }
+                }
+            }
+        }
+        per_type.push(tl);
+    }
+    let wall = t0.elapsed().as_secs_f64();
+    let ev = json!({
+        "property_id": "C16", "tier": tier, "seed": seed, "level": "exploration",
+        "coverage": {
+            "evaluations": evaluations,
+            "distinct_nontrivial": distinct.len(),
+            "rule": "one evaluation = one simulated lifecycle: a zeroize-built type, a detection arm, a construction route, a key, seeded faults (use before drop, bitwise relocation to another slot/offset, source dropped first), then drop_in_place and byte-exact inspection of the slot. Non-trivial = the type has at least one live key-dependent byte under this arm; distinct = distinct (type, arm, route, key, fault set) tuples. The (type, arm, route) grid is enumerated completely on every run; keys are sampled",
+            "samples": samples,
+            "exhaustive": false,
+            "grid_cells_type_arm_route": cells.len(),
+            "types_checked": types_checked,
+            "faults_fired": faults,
+            "warn_unwiped_nonlive_key_functional": {"cases": warn_nonlive, "types": warn_types.into_iter().collect::<Vec<_>>()},
+            "per_type": per_type,
+            "simulated_time": "n/a - the code under test reads no clock",
+            "runs_per_hour": (evaluations as f64 / wall.max(1e-9) * 3600.0) as u64,
+            "components": {"real": ["every crate under /repo built with its zeroize feature", "zeroize", "cipher"], "vendored_with_seam": ["cpufeatures 0.2.17"], "stub": []},
+        },
+        "assumptions": [
+            "a key-dependent byte whose low bit is not observable through encrypt/decrypt of 256 probe blocks counts as not live (warned, not alarmed): erring this way loses recall, never soundness",
+            "ARMv8/NEON types are not covered natively (no such hardware here)"
+        ],
+        "wall_s": wall,
+        "violations": violations.len(),
+    });
+    if let Some(dir) = std::path::Path::new(&evidence).parent() {
+        let _ = std::fs::create_dir_all(dir);
+    }
+    std::fs::write(&evidence, serde_json::to_string_pretty(&ev).unwrap()).unwrap_or_else(|e| die(&format!("write evidence: {}", e)));
+    for (s, w) in &known_hits {
+        println!("KNOWN-FINDING: property=C16 {} [{}]", w, s);
+    }
+    if warn_nonlive > 0 {
+        println!("WARN unwiped non-live key-functional bytes in {} cases (not an alarm, see DESIGN.md C16)", warn_nonlive);
+    }
+    println!("cases={} cells={} types={} distinct_nontrivial={} wall={:.1}s", evaluations, cells.len(), types_checked, distinct.len(), wall);
+    if !herr.is_empty() {
+        for h in herr.iter().take(10) {
+            eprintln!("HARNESS-ERROR: {}", h);
+        }
+        std::process::exit(2);
+    }
+    if !violations.is_empty() {
+        for v in &violations {
+            println!("{}", v["violation"]);
+            println!("VIOLATION property=C16 replay={}", v["replay"].as_str().unwrap_or(""));
+        }
+        std::process::exit(1);
+    }
+    println!("OK property=C16 held on {} cases", evaluations);
+}
+
+pub fn replay(v: &Value) {
+    let reg = crate::registry::build();
+    let anchors = Anchors::compute(&reg);
+    install_quiet_panic_hook();
+    let c = case_from_json(&reg, v.get("case").unwrap_or(&Value::Null)).unwrap_or_else(|| die("bad c16 case"));
+    let mut probe_rng = Prng::new(0x9E37_C16);
+    let mut e = Engine { reg: &reg, anchors: &anchors, calib: HashMap::new(), probes: probe_rng.bytes(256 * 128) };
+    match judge(&mut e, &c) {
+        Ok(o) if !o.live_nonzero.is_empty() => {
+            println!(
+                "{} live key-dependent bytes non-zero after drop of {} (offsets {:?}...)",
+                o.live_nonzero.len(),
+                reg.types[o.dropped_ty].name,
+                &o.live_nonzero[..o.live_nonzero.len().min(8)]
+            );
+            println!("REPRODUCED");
+            println!("VIOLATION property=C16 replay=<this file>");
+            std::process::exit(1);
+        }
+        Ok(_) => println!("NOT-REPRODUCED: all live key-dependent bytes are zero after drop"),
+        Err(m) => die(&m),
+    }
+}
